@@ -271,3 +271,35 @@ VARIANTS.pop()
 S("c06-benign-locals-renamed", "C06", (CL, "        new_data_levels = set(x)\n        original_levels = set(self.levels)\n        difference = new_data_levels - original_levels", "        seen_now = set(x)\n        seen_before = set(self.levels)\n        difference = seen_now - seen_before"))
 S("c06-benign-none-guard", "C06", (TR, "    def __init__(self):\n        self.params_set = False\n        self.mean = None\n\n    def __call__(self, x):\n        if not self.params_set:\n            self.mean = np.mean(x)\n            self.params_set = True\n        return x - self.mean",
                                    "    def __init__(self):\n        self.mean = None\n\n    def __call__(self, x):\n        if self.mean is None:\n            self.mean = np.mean(x)\n        return x - self.mean"))
+
+# ------------------------------------------------------------------ C07
+B("c07-value-written-at-prediction", "C07", "R7.1", (VR, "    def eval_new_data_numeric(self, x):\n        return np.asarray(x)", "    def eval_new_data_numeric(self, x):\n        self.value = np.asarray(x)\n        return self.value"))
+B("c07-term-data-overwritten", "C07", "R7.1", (TT, "            result = self.components[0].eval_new_data(data)\n        return result", "            result = self.components[0].eval_new_data(data)\n        self.data = result\n        return result"))
+B("c07-levels-extended-at-prediction", "C07", "R7.1", (CL, "        if not difference:\n            idxs = pd.Categorical(x, categories=self.levels).codes", "        self.levels.extend(sorted(difference))\n        if not difference:\n            idxs = pd.Categorical(x, categories=self.levels).codes"))
+B("c07-self-matrix-overwritten", "C07", "R7.1", (MX, "        new_instance.slices = self.slices\n        new_instance.evaluated = True", "        new_instance.slices = self.slices\n        self.design_matrix = new_instance.design_matrix\n        new_instance.evaluated = True"))
+B("c07-component-kind-set-at-prediction", "C07", "R7.1", (TT, "        Xi = self.expr.eval_new_data(data)\n        Ji = self.factor.eval_new_data(data)", "        for component in self.factor.components:\n            component.kind = \"categoric\"\n        Xi = self.expr.eval_new_data(data)\n        Ji = self.factor.eval_new_data(data)"))
+B("c07-transform-overwritten", "C07", "R7.1", (CR, "            and self.stateful_transform is None\n        ):", "        ):"))
+B("c07-center-inplace", "C07", "R7.2", (TR, "        return x - self.mean", "        x -= self.mean\n        return x"))
+B("c07-zero-through-remembered-matrix", "C07", "R7.2", (VR, "        contribution = self.contrast_matrix.matrix[idxs_modified]\n        contribution[idxs_original == -1] = 0", "        contribution = self.contrast_matrix.matrix[:, :]\n        contribution[idxs_original == -1] = 0"))
+B("c07-new-group-col-on-returned-array", "C07", "R7.2", (TT, "            Ji = np.column_stack([Ji, np.zeros((Ji.shape[0], 1), dtype=\"int\")])\n            Ji[all_zeros, -1] = 1", "            Ji[all_zeros, -1] = 1"))
+B("c07-binary-mutates-argument", "C07", "R7.2", (TR, "    booleans = x == success\n", "    x[x != success] = 0\n    booleans = x == success\n"))
+B("c07-offset-values-inplace", "C07", "R7.2", (CL, "            if isinstance(values, pd.Series):\n                values = values.to_numpy()\n            result = values\n        return result\n\n    def eval_new_data_proportion", "            if isinstance(values, pd.Series):\n                values = values.to_numpy()\n            values *= 1.0\n            result = values\n        return result\n\n    def eval_new_data_proportion"))
+B("c07-class-level-alpha", "C07", "R7.3", (TR, '    __transform_name__ = "poly"\n', '    __transform_name__ = "poly"\n    alpha = {}\n'))
+B("c07-lru-cache-model-description", "C07", "R7.3", (MD, "def model_description(formula):", "import functools\n\n\n@functools.lru_cache(maxsize=None)\ndef model_description(formula):"))
+B("c07-module-level-design-cache", "C07", "R7.3", (MX, "_log = logging.getLogger(\"formulae\")\n", "_log = logging.getLogger(\"formulae\")\n_DESIGNS = {}\n"))
+B("c07-mutable-default", "C07", "R7.3", (MX, "def design_matrices(formula, data, na_action=\"drop\", env=0, extra_namespace=None):", "def design_matrices(formula, data, na_action=\"drop\", env=0, extra_namespace={}):"))
+B("c07-transforms-written-at-eval", "C07", "R7.3", (CL, "        transforms_env = Environment([{**TRANSFORMS, **ENCODINGS}])", "        TRANSFORMS.update(env.namespace.get(\"__transforms__\", {}))\n        transforms_env = Environment([{**TRANSFORMS, **ENCODINGS}])"))
+B("c07-symbols-table-mutated", "C07", "R7.3", (CR, "        self.symbol = self.SYMBOLS[op.__name__]", "        self.SYMBOLS.setdefault(op.__name__, op.__name__)\n        self.symbol = self.SYMBOLS[op.__name__]"))
+B("c07-state-not-in-init", "C07", "R7.4", (TR, "        self.params_set = False\n        self.mean = None\n        self.std = None\n", "        self.params_set = False\n        self.mean = None\n"))
+B("c07-dropna-inplace", "C07", "R7.5", (MX, "            data = data[~incomplete_rows]\n", "            data.dropna(inplace=True)\n"))
+B("c07-data-column-added", "C07", "R7.5", (MX, "    incomplete_rows = data.isna().any(axis=1)\n", "    incomplete_rows = data.isna().any(axis=1)\n    data[\"__incomplete__\"] = incomplete_rows\n"), note="after rebinding: data is the subset frame (fresh): should NOT fire R7.5 - benign")
+VARIANTS.pop()
+B("c07-caller-frame-column-added", "C07", "R7.5", (MX, "    extra_namespace = extra_namespace or {}\n", "    extra_namespace = extra_namespace or {}\n    data[\"__row__\"] = range(data.shape[0])\n"))
+B("c07-namespace-written", "C07", "R7.5", (CR, "                result = env.namespace[self.name]\n", "                result = env.namespace[self.name]\n                env.namespace[self.name] = result\n"))
+B("c07-index-reset-on-caller-frame", "C07", "R7.5", (MX, "    extra_namespace = extra_namespace or {}\n", "    extra_namespace = extra_namespace or {}\n    data.index = range(data.shape[0])\n"))
+B("c07-design-from-global-model", "C07", "R7.6", (MX, "    description = model_description(formula)\n", "    description = _DESCRIPTIONS.setdefault(formula, model_description(formula))\n"), (MX, "# Utils\n", "_DESCRIPTIONS = dict()\n\n\n# Utils\n"))
+B("c07-random-jitter", "C07", "R7.7", (TR, "        return x - self.mean", "        return x - self.mean + np.random.normal(0, 1e-12, len(x))"))
+B("c07-levels-from-set-order", "C07", "R7.7", (CL, "            categories = sorted(list(set(data)))", "            categories = list(set(data))"))
+S("c07-benign-immutable-constant", "C07", (MX, "_log = logging.getLogger(\"formulae\")\n", "_log = logging.getLogger(\"formulae\")\nWRAP_WIDTH = 100\n"))
+S("c07-benign-never-read-attr", "C07", (TT, "        Zi = linalg.khatri_rao(Ji.T, Xi.T).T\n        return Zi", "        Zi = linalg.khatri_rao(Ji.T, Xi.T).T\n        self._last_shape_for_debugging = Zi.shape\n        return Zi"))
+S("c07-benign-copy-then-mutate", "C07", (TR, "        return x - self.mean", "        out = np.array(x, dtype=float)\n        out -= self.mean\n        return out"))
